@@ -1,12 +1,15 @@
 import Carquet.Util
 import Carquet.Impl.FileReal
+import Driver.ReadBack
 /-
 Driver op `wr` (harness/ops_file.c): a write history executed by the real writer.
 Tie: the bytes of the file equal `Impl.Writer.fileOf` instantiated with the component models
 (codecs UNCOMPRESSED / SNAPPY / LZ4 / LZ4_RAW; GZIP and ZSTD pages depend on zlib / libzstd and
 are compared structurally elsewhere), and the statuses of all calls are OK as the model says.
 Property predicates carried by the line itself (C side): p_roundtrip (C01), p_modes (C03),
-p_same_twice (C05).  The read-back fields `r<g>_<c>` are judged by Driver/Ops/FileRead.
+p_same_twice (C05).  The read-back fields `nrg rows ncol r<g>_<c>` (present when every call
+returned OK) are judged by Driver/ReadBack: tie of the model READER on the real file, and C01's
+own predicate (what was read back is the table the history intends).
 -/
 namespace Driver.Ops.FileWrite
 open Carquet Carquet.Util Carquet.Impl.Writer
@@ -70,12 +73,13 @@ def handle (l : Line) : Option Verdict :=
       if (l.outStr "err").isSome then .diverge "writer-could-not-be-created"
       else match l.outNats "st", l.outHex "file" with
       | some st, some file =>
+        let rb := if st.all (· == 0) then Driver.ReadBack.readChecks c.cols c.codec c.ops file l else ([], [])
         if modelledCodec c.codec then
           let m := fileOf (Impl.FileReal.deps []) c.cols c.codec c.page "Carquet" c.ops
-          verdict [("writer_model_statuses", m.2.map statusCode == st),
-                   ("writer_model_bytes", m.1 == file)] []
+          verdict ([("writer_model_statuses", m.2.map statusCode == st),
+                    ("writer_model_bytes", m.1 == file)] ++ rb.1) rb.2
         else
-          verdict [("writer_model_statuses_all_ok", st.all (· == 0))] []
+          verdict ([("writer_model_statuses_all_ok", st.all (· == 0))] ++ rb.1) rb.2
       | _, _ => .bad "wr outs"
   | _ => none
 
